@@ -19,12 +19,12 @@ func init() {
 	register(&Property{
 		ID:        "C45",
 		Title:     "Every node elects the same owner for a load-balancer address",
-		Technique: "static analysis: sorted-flag pairing and cut-set guard of the binary search (E-PAIR/E-GUARD), comparator field closure (E-FIELDS), sweep pairing, determinism lint (E-DET) on go/ssa + go/ast of lib/datastructures/hashring; mutation/dirty pairing with a before/after size-bracket exemption and size-derived-branch ownership (E-PAIR/E-OWN) on proxyNeighManager in felix/dataplane/linux",
+		Technique: "static analysis: interprocedural protocol-state analysis (finite abstract state per API call, disjunctive sets, computed summaries of in-package helpers, obligations evaluated under every calling context) for the sorted-flag invariant, the binary search and the sweep (E-PAIR/E-GUARD), comparator field closure (E-FIELDS), insert guards lifted through helper results and call sites, determinism lint (E-DET) on go/ssa + go/ast of lib/datastructures/hashring; mutation/dirty pairing with a before/after size-bracket exemption and size-derived-branch ownership (E-PAIR/E-OWN) on proxyNeighManager in felix/dataplane/linux",
 		DesignRef: "DESIGN.md §3 C45",
-		Explanation: "History-independence clauses of hashring.Ring: (sorted) every store into `entries` is either an order-preserving slices helper (Grow/DeleteFunc/Delete/Clip) or is followed on every path by sorted=false; sorted=true is only stored after a sort of `entries`; every binary search of `entries` is reachable only through the sort or a sorted==true edge. " +
+		Explanation: "History-independence clauses of hashring.Ring, decided per API call (exported function of the package) across whatever helpers the code is split into: (sorted) the class invariant `sorted ⇒ entries sorted` is re-established at every API exit — a store into `entries` that is not an order-preserving slices helper (Grow/DeleteFunc/Delete/Clip), a re-slice or an emptying is followed on every path to the exit by sorted=false or a sort; sorted is only set where `entries` is known sorted; every binary search of `entries` runs only where it is known sorted (after the sort, or on a sorted==true edge with flag and table untouched since API entry). " +
 			"(total) the sort comparator reads every field of `entry` (ties on the hash are broken by the key, so the order does not depend on insertion history). " +
-			"(sweep) the sweep that drops dead entries also deletes every swept key from `members` and clears `deletedKeys`, and it is guarded by the same pending set the predicate tests (a swept key can be re-inserted with fresh virtual nodes). " +
-			"(insert) virtual nodes are appended only for keys that are neither live nor pending deletion, and each appended entry carries saltedHash(key, i) and the same key. " +
+			"(sweep) the sweep drops exactly the entries whose key is pending; every API call that sweeps also deletes every pending key from `members` and then clears `deletedKeys` before it returns (clearing earlier would blind the two steps that read the set); the binary searches Lookup performs run only with the pending set known empty (cleared, or len()==0 tested), so a removed member is never elected. " +
+			"(insert) virtual nodes are appended only for keys that are neither live nor pending deletion — the not-found edges of the two map lookups, established in the appending function, by a helper whose result implies them, or at every call site of the appending helper — and each appended entry carries saltedHash(key, i) and the same key. " +
 			"(apply) in the ring's consumer, felix/dataplane/linux proxyNeighManager, every call of a member-set mutator of the ring (Insert/Remove, derived from the ring's source) is followed on every path by dirty=true, except on the size-unchanged edge of a Len() comparison that brackets exactly that one call; in the functions that decide dirtiness the ring's size feeds no other branch and is never cached (a join plus a leave keep the size but change the owners). " +
 			"(det) no architecture-/process-dependent primitive and no order-sensitive map iteration in the closure of New/Insert/Remove/Len/Lookup.",
 		NotDecided: "That the hash function (xxh3 by default, or one supplied with WithHash) is node-independent; arithmetic of the nearest-probe selection; that all nodes feed the ring the same member set (proxy_neigh_mgr); that dirty=true actually leads to reconcileListeners (CompleteDeferredWork's gate is only checked for not deriving from the ring's size); balance.",
@@ -44,6 +44,8 @@ func init() {
 				Old: "\t\tclear(r.deletedKeys)\n", New: "", Expect: "C45.sweep/Ring.Lookup/clear"},
 			{Name: "sweep keeps dead members", File: c45File,
 				Old: "\t\tfor k := range r.deletedKeys {\n\t\t\tdelete(r.members, k)\n\t\t}\n", New: "", Expect: "C45.sweep/Ring.Lookup/members"},
+			{Name: "sweep deferred until many removals are pending", File: c45File,
+				Old: "\tif len(r.deletedKeys) > 0 {\n", New: "\tif len(r.deletedKeys) > len(r.members)/2 {\n", Expect: "C45.sweep/Ring.Lookup/before-search"},
 			{Name: "re-insert of a live key adds virtual nodes again", File: c45File,
 				Old: "\tif _, ok := r.members[key]; ok {\n\t\tr.members[key] = value\n\t\treturn\n\t}\n", New: "", Expect: "C45.insert/Ring.Insert/guard"},
 			{Name: "node join no longer marks the neighbour manager dirty", File: c45MgrFile,
@@ -66,6 +68,7 @@ type c45Model struct {
 	members, deleted, entries, sorted     *types.Var
 	entryT                                types.Type
 	funcs                                 []*ssa.Function
+	sm                                    *c45Machine // sorted-flag protocol (also the package's call-site index)
 	insert, remove, lookup, length, newFn *ssa.Function
 }
 
@@ -73,7 +76,7 @@ func runC45(c *Ctx) {
 	p := c.LoadMod(modDS, "./hashring")
 	c.Rule("C45.sorted", "E-PAIR/E-GUARD", "stores to entries keep order or clear the sorted flag; sorted=true only after a sort; binary search only behind sort/sorted", 4)
 	c.Rule("C45.total", "E-FIELDS", "the sort comparator reads every field of entry", 1)
-	c.Rule("C45.sweep", "E-PAIR", "sweep of dead entries is guarded by the pending set, deletes the swept keys from members and clears the pending set", 3)
+	c.Rule("C45.sweep", "E-PAIR", "the sweep of dead entries drops exactly the pending keys, deletes them from members and clears the pending set before the API call returns (in this order, in the function or its helpers); Lookup's owner search runs only with the pending set known empty", 4)
 	c.Rule("C45.insert", "E-GUARD/E-FLOW", "entries appended only for keys neither live nor pending; appended entry = {saltedHash(key,i), key}", 2)
 	c.Rule("C45.ringdirty", "E-PAIR", "in proxyNeighManager every call of a member-set mutator of the ring (Insert/Remove) is followed on every path by dirty=true, except on the `equal` edge of a comparison of Ring.Len() taken immediately before and after that single call (the call was a no-op)", 2)
 	c.Rule("C45.ringsize", "E-OWN", "in the functions of proxyNeighManager that decide dirtiness, a value of Ring.Len() only feeds a branch as such a before/after bracket of one mutation, and is never cached in the manager: size is not membership", 1)
@@ -123,8 +126,28 @@ func runC45(c *Ctx) {
 		}
 		*n.dst = f
 	}
-	m.funcs = withClosures(p.methodsOf(c45Pkg, "Ring"))
-	m.funcs = append(m.funcs, withClosures([]*ssa.Function{m.newFn})...)
+	// every function with a body declared in the ring's package (methods of
+	// Ring, New, helpers, closures): sites are found by what they do, wherever a
+	// refactor has put them.
+	sp := p.SSAPkg(c45Pkg)
+	if sp == nil {
+		c.Lost("package %s", c45Pkg)
+	}
+	var tops []*ssa.Function
+	for _, name := range sortedKeys(sp.Members) {
+		switch mem := sp.Members[name].(type) {
+		case *ssa.Function:
+			if mem.Blocks != nil && mem.Synthetic == "" {
+				tops = append(tops, mem)
+			}
+		case *ssa.Type:
+			tops = append(tops, p.methodsOf(c45Pkg, name)...)
+		}
+	}
+	m.funcs = withClosures(tops)
+	if len(m.funcs) < 6 {
+		c.Lost("functions of %s: %d", c45Pkg, len(m.funcs))
+	}
 
 	c45Sorted(m)
 	c45Total(m)
@@ -181,129 +204,218 @@ func (m *c45Model) sortCalls(f *ssa.Function) []CallSite {
 	return out
 }
 
-func c45Sorted(m *c45Model) {
-	c, p := m.c, m.p
-	nStores := 0
-	for _, f := range m.funcs {
-		pd := postDominators(f)
-		var falseStores []*ssa.Store
-		for _, st := range storesToField(f, false, "", m.sorted.Name()) {
-			if !c45Is(st.Addr, m.sorted) {
-				continue
-			}
-			if cv, ok := constOf(st.Val); ok && cv.String() == "false" {
-				falseStores = append(falseStores, st)
+// ---- sorted-flag protocol -------------------------------------------------
+//
+// Abstract state = (flag, entries):
+//
+//	flag    F  the sorted flag is known false
+//	        U  unchanged since the API call began
+//	        T  stored (non-false) during this API call
+//	entries S  known sorted (a sort ran, or the flag was read true while both
+//	           were unchanged — the class invariant `flag ⇒ sorted` is assumed at
+//	           API entry and proved at every API exit)
+//	        U  unchanged since the API call began
+//	        D  possibly disordered (a store that is not an order-preserving helper)
+//
+// Invariant at an exit: flag==F, or entries==S, or nothing was touched.
+const (
+	c45FlagF, c45FlagU, c45FlagT = 0, 1, 2
+	c45EntS, c45EntU, c45EntD    = 0, 1, 2
+)
+
+func c45St(flag, ent int) int     { return flag*3 + ent }
+func c45Bit(flag, ent int) c45Set { return 1 << uint(c45St(flag, ent)) }
+func c45InvOK(s int) bool {
+	flag, ent := s/3, s%3
+	return flag == c45FlagF || ent == c45EntS || (flag == c45FlagU && ent == c45EntU)
+}
+
+// entriesStoreKind classifies a value stored into the entries field:
+// "keep" (order-preserving: slices.Grow/DeleteFunc/Delete/Clip of entries, a
+// re-slice of entries), "empty" (nil, [:0], make(_, 0, …): trivially sorted) or
+// "disorder" (anything else, e.g. append).
+func (m *c45Model) entriesStoreKind(v ssa.Value) string {
+	switch x := v.(type) {
+	case *ssa.Call:
+		if c45SlicesFn(calleeOf(x.Common()), "Grow", "DeleteFunc", "Delete", "Clip") && len(x.Call.Args) > 0 && c45Is(x.Call.Args[0], m.entries) {
+			return "keep"
+		}
+	case *ssa.Slice:
+		if x.High != nil {
+			if cv, ok := constOf(x.High); ok && cv.ExactString() == "0" {
+				return "empty"
 			}
 		}
-		// stores into entries
-		var bad []string
-		n := 0
+		if c45Is(x.X, m.entries) {
+			return "keep"
+		}
+	case *ssa.MakeSlice:
+		if cv, ok := constOf(x.Len); ok && cv.ExactString() == "0" {
+			return "empty"
+		}
+	case *ssa.Const:
+		if x.Value == nil {
+			return "empty"
+		}
+	}
+	return "disorder"
+}
+
+func (m *c45Model) isSortCall(in ssa.Instruction) bool {
+	ci, ok := in.(ssa.CallInstruction)
+	if !ok {
+		return false
+	}
+	fn := calleeOf(ci.Common())
+	if fn == nil || !(c45SlicesFn(fn, "SortFunc", "SortStableFunc") || (fn.Pkg() != nil && fn.Pkg().Path() == "sort" && (fn.Name() == "Slice" || fn.Name() == "SliceStable"))) {
+		return false
+	}
+	a := ci.Common().Args
+	return len(a) > 0 && c45Is(a[0], m.entries)
+}
+
+// body: the function with a body in the ring's package that cc calls
+// statically (instantiation wrappers of generic methods resolved to the generic
+// origin); nil for everything else.
+func (m *c45Model) body(cc *ssa.CallCommon) *ssa.Function {
+	if cc.IsInvoke() {
+		return nil
+	}
+	sc := cc.StaticCallee()
+	if sc == nil {
+		return nil
+	}
+	if o := sc.Origin(); o != nil {
+		sc = o
+	}
+	if sc.Blocks == nil || topFn(sc).Pkg == nil || topFn(sc).Pkg != m.p.SSAPkg(c45Pkg) {
+		return nil
+	}
+	return sc
+}
+
+func (m *c45Model) isRoot(f *ssa.Function) bool {
+	if f.Parent() != nil {
+		return false
+	}
+	o, _ := f.Object().(*types.Func)
+	return o == nil || o.Exported()
+}
+
+func (m *c45Model) sortedMachine() *c45Machine {
+	names := [3]string{"false", "unchanged", "set"}
+	ents := [3]string{"sorted", "unchanged", "possibly disordered"}
+	return &c45Machine{
+		n: 9, init: c45St(c45FlagU, c45EntU),
+		body: m.body, funcs: m.funcs, isRoot: m.isRoot,
+		label: func(s int) string {
+			return fmt.Sprintf("%s %s / %s %s", m.sorted.Name(), names[s/3], m.entries.Name(), ents[s%3])
+		},
+		step: func(in ssa.Instruction, s int) (c45Set, bool) {
+			flag, ent := s/3, s%3
+			if m.isSortCall(in) {
+				return c45Bit(flag, c45EntS), true
+			}
+			st, ok := in.(*ssa.Store)
+			if !ok {
+				return 0, false
+			}
+			switch {
+			case c45Is(st.Addr, m.sorted):
+				if cv, ok := constOf(st.Val); ok && cv.ExactString() == "false" {
+					return c45Bit(c45FlagF, ent), true
+				}
+				return c45Bit(c45FlagT, ent), true
+			case c45Is(st.Addr, m.entries):
+				switch m.entriesStoreKind(st.Val) {
+				case "keep":
+					return 0, false
+				case "empty":
+					return c45Bit(flag, c45EntS), true
+				}
+				return c45Bit(flag, c45EntD), true
+			}
+			// element store entries[i] = …
+			if ia, ok := st.Addr.(*ssa.IndexAddr); ok && c45Is(ia.X, m.entries) {
+				return c45Bit(flag, c45EntD), true
+			}
+			return 0, false
+		},
+		edge: func(cond ssa.Value, pol bool, s int) (c45Set, bool) {
+			if !c45Is(cond, m.sorted) {
+				return 0, false
+			}
+			flag, ent := s/3, s%3
+			if !pol {
+				return c45Bit(c45FlagF, ent), true
+			}
+			if flag == c45FlagF {
+				return 0, true // infeasible
+			}
+			if flag == c45FlagU && ent == c45EntU {
+				return c45Bit(flag, c45EntS), true
+			}
+			return 0, false
+		},
+	}
+}
+
+func c45Sorted(m *c45Model) {
+	c, p := m.c, m.p
+	mc := m.sortedMachine()
+	m.sm = mc
+	entSorted := func(s int) bool { return s%3 == c45EntS }
+	nStores := 0
+	for _, f := range m.funcs {
+		// stores into entries: the class invariant `flag ⇒ sorted` holds again at
+		// every exit of every API function that can reach this function
+		n, nDis := 0, 0
 		for _, st := range storesToField(f, false, "", m.entries.Name()) {
 			if !c45Is(st.Addr, m.entries) {
 				continue
 			}
 			n++
-			keeps := false
-			if call, ok := st.Val.(*ssa.Call); ok {
-				if c45SlicesFn(calleeOf(call.Common()), "Grow", "DeleteFunc", "Delete", "Clip") && len(call.Call.Args) > 0 && c45Is(call.Call.Args[0], m.entries) {
-					keeps = true
-				}
-			}
-			if keeps {
-				continue
-			}
-			cleared := false
-			for _, fs := range falseStores {
-				if instrPostDominates(pd, fs, st) {
-					cleared = true
-				}
-			}
-			if !cleared {
-				bad = append(bad, fmt.Sprintf("store of %s into %s at %s is not followed on every path by %s=false", path(st.Val), m.entries.Name(), p.Pos(st.Pos()), m.sorted.Name()))
+			if m.entriesStoreKind(st.Val) == "disorder" {
+				nDis++
 			}
 		}
 		if n > 0 {
 			nStores += n
-			c.Check(len(bad) == 0, "C45.sorted/store/"+fnName(f), p.Pos(f.Pos()),
-				fmt.Sprintf("%d store(s) into %s: order-preserving helper or followed by %s=false", n, m.entries.Name(), m.sorted.Name()),
-				strings.Join(bad, "; ")+" (a later Lookup binary-searches an unsorted table: the owner depends on insertion history)")
+			bad := ""
+			if nDis > 0 {
+				bad = mc.requireAtExit(f, c45InvOK)
+			}
+			c.Check(bad == "", "C45.sorted/store/"+fnName(f), p.Pos(f.Pos()),
+				fmt.Sprintf("%d store(s) into %s (%d not order-preserving): every API exit is reached with %s=false or a sorted table", n, m.entries.Name(), nDis, m.sorted.Name()),
+				fmt.Sprintf("%s stores into %s without an order-preserving helper, and %s: the store is not followed on every path by %s=false (a later Lookup binary-searches an unsorted table: the owner depends on insertion history)", fnName(f), m.entries.Name(), bad, m.sorted.Name()))
 		}
-		// sorted = true only after a sort
-		sorts := m.sortCalls(f)
+		// sorted = <non-false> only when the table is known sorted
 		for _, st := range storesToField(f, false, "", m.sorted.Name()) {
 			if !c45Is(st.Addr, m.sorted) {
 				continue
 			}
-			if cv, ok := constOf(st.Val); ok && cv.String() == "false" {
+			if cv, ok := constOf(st.Val); ok && cv.ExactString() == "false" {
 				continue
 			}
-			dom := false
-			for _, s := range sorts {
-				if instrDominates(s.Instr, st) {
-					dom = true
-				}
-			}
-			c.Check(dom, "C45.sorted/flag-set/"+fnName(f), p.Pos(st.Pos()),
-				m.sorted.Name()+" set only after a sort of "+m.entries.Name(), m.sorted.Name()+" is set without a dominating sort of "+m.entries.Name())
+			bad := mc.requireBefore(st, entSorted)
+			c.Check(bad == "", "C45.sorted/flag-set/"+fnName(f), p.Pos(st.Pos()),
+				m.sorted.Name()+" set only after a sort of "+m.entries.Name(),
+				m.sorted.Name()+" is set without a preceding sort of "+m.entries.Name()+" ("+bad+")")
 		}
 		// binary searches
 		for _, cs := range callsIn(f, false, func(fn *types.Func) bool { return c45SlicesFn(fn, "BinarySearchFunc", "BinarySearch") }) {
 			if len(cs.Args()) == 0 || !c45Is(cs.Args()[0], m.entries) {
 				continue
 			}
-			ok := c45CutBy(cs.Instr, sorts, func(cond ssa.Value, pol bool) bool { return pol && c45Is(cond, m.sorted) })
-			c.Check(ok, "C45.sorted/search/"+fnName(f), p.Pos(cs.Instr.Pos()),
-				"binary search reachable only through the sort or a "+m.sorted.Name()+"==true edge",
-				"binary search of "+m.entries.Name()+" is reachable with "+m.sorted.Name()+"==false and without sorting")
+			bad := mc.requireBefore(cs.Instr, entSorted)
+			c.Check(bad == "", "C45.sorted/search/"+fnName(f), p.Pos(cs.Instr.Pos()),
+				"binary search reachable only through the sort or a "+m.sorted.Name()+"==true edge (in this function, a helper it calls, or every caller)",
+				"binary search of "+m.entries.Name()+" is reachable with "+m.sorted.Name()+"==false and without sorting ("+bad+")")
 		}
 	}
 	if nStores == 0 {
 		c.Lost("no store into Ring.%s", m.entries.Name())
 	}
-}
-
-// c45CutBy: every path from entry to target crosses one of the cut calls or an
-// If edge accepted by pred.
-func c45CutBy(target ssa.Instruction, cuts []CallSite, pred EdgePred) bool {
-	fn := target.Parent()
-	cutBlocks := map[*ssa.BasicBlock]bool{}
-	for _, cs := range cuts {
-		if cs.Instr.Block() == target.Block() {
-			if instrIndex(cs.Instr) < instrIndex(target) {
-				return true
-			}
-			continue
-		}
-		cutBlocks[cs.Instr.Block()] = true
-	}
-	seen := map[*ssa.BasicBlock]bool{}
-	st := []*ssa.BasicBlock{fn.Blocks[0]}
-	for len(st) > 0 {
-		b := st[len(st)-1]
-		st = st[:len(st)-1]
-		if seen[b] {
-			continue
-		}
-		seen[b] = true
-		if b == target.Block() {
-			return false
-		}
-		if cutBlocks[b] || isPanicBlock(b) {
-			continue
-		}
-		if ifi, ok := b.Instrs[len(b.Instrs)-1].(*ssa.If); ok && len(b.Succs) == 2 {
-			for k, s := range b.Succs {
-				cnd, pol := stripNot(ifi.Cond, k == 0)
-				if b.Succs[0] != b.Succs[1] && pred(cnd, pol) {
-					continue
-				}
-				st = append(st, s)
-			}
-			continue
-		}
-		st = append(st, b.Succs...)
-	}
-	return true
 }
 
 func c45Total(m *c45Model) {
@@ -342,21 +454,118 @@ func c45Total(m *c45Model) {
 	}
 }
 
+// ---- sweep protocol ---------------------------------------------------------
+//
+// Abstract state = subset of {swept, membersDropped, cleared} plus `misordered`
+// (the pending set was cleared before one of the two steps that read it).  At
+// an API exit a sweep must be complete: swept ⇒ membersDropped ∧ cleared.
+const (
+	c45Swept, c45MemDropped, c45Cleared, c45Misordered = 1, 2, 4, 8
+)
+
+// isSweepCall: slices.DeleteFunc(entries, pred).
+func (m *c45Model) isSweepCall(in ssa.Instruction) bool {
+	ci, ok := in.(ssa.CallInstruction)
+	if !ok || !c45SlicesFn(calleeOf(ci.Common()), "DeleteFunc") {
+		return false
+	}
+	a := ci.Common().Args
+	return len(a) >= 2 && c45Is(a[0], m.entries)
+}
+
+// isMemberDropRange: `range pending` whose loop deletes the ranged key from members.
+func (m *c45Model) isMemberDropRange(in ssa.Instruction) bool {
+	rg, ok := in.(*ssa.Range)
+	if !ok || !c45Is(rg.X, m.deleted) {
+		return false
+	}
+	found := false
+	allInstrs(rg.Parent(), false, func(_ *ssa.Function, x ssa.Instruction) {
+		cc, ok := isBuiltinCall(x, "delete")
+		if !ok || !c45Is(cc.Args[0], m.members) {
+			return
+		}
+		ex, ok := cc.Args[1].(*ssa.Extract)
+		if !ok || ex.Index != 1 {
+			return
+		}
+		if nx, ok := ex.Tuple.(*ssa.Next); ok && nx.Iter == ssa.Value(rg) {
+			found = true
+		}
+	})
+	return found
+}
+
+func (m *c45Model) sweepMachine() *c45Machine {
+	return &c45Machine{
+		n: 16, init: 0,
+		body: m.body, funcs: m.funcs, isRoot: m.isRoot,
+		label: func(s int) string {
+			var parts []string
+			for _, b := range []struct {
+				bit  int
+				name string
+			}{{c45Swept, "entries swept"}, {c45MemDropped, "swept keys dropped from " + m.members.Name()}, {c45Cleared, m.deleted.Name() + " cleared"}, {c45Misordered, m.deleted.Name() + " cleared before it was used"}} {
+				if s&b.bit != 0 {
+					parts = append(parts, b.name)
+				}
+			}
+			if len(parts) == 0 {
+				return "no sweep"
+			}
+			return "{" + strings.Join(parts, ", ") + "}"
+		},
+		step: func(in ssa.Instruction, s int) (c45Set, bool) {
+			switch {
+			case m.isSweepCall(in), m.isMemberDropRange(in):
+				bit := c45Swept
+				if !m.isSweepCall(in) {
+					bit = c45MemDropped
+				}
+				if s&c45Cleared != 0 && s&bit == 0 {
+					s |= c45Misordered
+				}
+				return 1 << uint(s|bit), true
+			}
+			if cc, ok := isBuiltinCall(in, "clear"); ok && c45Is(cc.Args[0], m.deleted) {
+				return 1 << uint(s|c45Cleared), true
+			}
+			return 0, false
+		},
+	}
+}
+
 func c45Sweep(m *c45Model) {
 	c, p := m.c, m.p
+	mc := m.sweepMachine()
 	n := 0
 	for _, f := range m.funcs {
-		pd := postDominators(f)
 		for _, cs := range callsIn(f, false, func(fn *types.Func) bool { return c45SlicesFn(fn, "DeleteFunc") }) {
-			if len(cs.Args()) < 2 || !c45Is(cs.Args()[0], m.entries) {
+			if !m.isSweepCall(cs.Instr) {
 				continue
 			}
 			n++
 			site := p.Pos(cs.Instr.Pos())
 			// predicate tests the pending set with the entry's key
 			predOK := false
-			if mc, ok := cs.Args()[1].(*ssa.MakeClosure); ok {
-				pf := mc.Fn.(*ssa.Function)
+			var pf *ssa.Function
+			switch x := cs.Args()[1].(type) {
+			case *ssa.MakeClosure:
+				pf, _ = x.Fn.(*ssa.Function)
+			case *ssa.Function:
+				pf = x
+			}
+			if pf != nil && pf.Synthetic != "" && len(pf.Blocks) == 1 {
+				// bound-method / thunk wrapper: look at the method it forwards to
+				for _, in := range pf.Blocks[0].Instrs {
+					if ci, ok := in.(*ssa.Call); ok {
+						if g := m.body(ci.Common()); g != nil {
+							pf = g
+						}
+					}
+				}
+			}
+			if pf != nil {
 				allInstrs(pf, false, func(_ *ssa.Function, in ssa.Instruction) {
 					if lk, ok := in.(*ssa.Lookup); ok && lk.CommaOk && c45Is(lk.X, m.deleted) {
 						if fv := fieldVar(lk.Index); fv != nil && types.Identical(derefType(fv.Type()), types.Typ[types.String]) {
@@ -372,47 +581,231 @@ func c45Sweep(m *c45Model) {
 			c.Check(predOK, "C45.sweep/"+fnName(f)+"/predicate", site,
 				"entries are dropped exactly when their key is in "+m.deleted.Name(),
 				"the DeleteFunc predicate is not `key in "+m.deleted.Name()+"`")
-			// clear(pending) post-dominates
-			cleared := false
-			allInstrs(f, false, func(_ *ssa.Function, in ssa.Instruction) {
-				if cc, ok := isBuiltinCall(in, "clear"); ok && c45Is(cc.Args[0], m.deleted) && instrPostDominates(pd, in, cs.Instr) {
-					cleared = true
-				}
+			// at every API exit that can follow this sweep it has been completed:
+			// clear(pending), after both steps that read the pending set
+			bad := mc.requireAtExit(f, func(s int) bool {
+				return s&c45Swept == 0 || (s&c45Cleared != 0 && s&c45Misordered == 0)
 			})
-			c.Check(cleared, "C45.sweep/"+fnName(f)+"/clear", site,
+			c.Check(bad == "", "C45.sweep/"+fnName(f)+"/clear", site,
 				m.deleted.Name()+" is cleared on every path after the sweep",
-				"after the sweep "+m.deleted.Name()+" still holds the swept keys: a later Insert of such a key only un-deletes it and adds no virtual nodes, so the member can never own an address (history-dependent)")
+				"after the sweep "+m.deleted.Name()+" still holds the swept keys ("+bad+"): a later Insert of such a key only un-deletes it and adds no virtual nodes, so the member can never own an address (history-dependent)")
 			// members deleted for each pending key
-			memDel := false
-			allInstrs(f, false, func(_ *ssa.Function, in ssa.Instruction) {
-				cc, ok := isBuiltinCall(in, "delete")
-				if !ok || !c45Is(cc.Args[0], m.members) {
-					return
-				}
-				ex, ok := cc.Args[1].(*ssa.Extract)
-				if !ok || ex.Index != 1 {
-					return
-				}
-				nx, ok := ex.Tuple.(*ssa.Next)
-				if !ok {
-					return
-				}
-				rg, ok := nx.Iter.(*ssa.Range)
-				if !ok || !c45Is(rg.X, m.deleted) {
-					return
-				}
-				if instrPostDominates(pd, rg, cs.Instr) || instrDominates(rg, cs.Instr) {
-					memDel = true
-				}
+			bad = mc.requireAtExit(f, func(s int) bool {
+				return s&c45Swept == 0 || s&c45MemDropped != 0
 			})
-			c.Check(memDel, "C45.sweep/"+fnName(f)+"/members", site,
+			c.Check(bad == "", "C45.sweep/"+fnName(f)+"/members", site,
 				"every key of "+m.deleted.Name()+" is deleted from "+m.members.Name()+" with the sweep",
-				"swept keys stay in "+m.members.Name()+": a later Insert of such a key takes the `already a member` path and adds no virtual nodes (history-dependent owner)")
+				"swept keys stay in "+m.members.Name()+" ("+bad+"): a later Insert of such a key takes the `already a member` path and adds no virtual nodes (history-dependent owner)")
 		}
 	}
 	if n == 0 {
 		c.Lost("no slices.DeleteFunc sweep of Ring.%s", m.entries.Name())
 	}
+	// the owner is only chosen among live entries: every binary search that
+	// Lookup performs (itself or in a helper) runs with the pending set known
+	// empty — cleared by the sweep, or tested empty
+	pm := m.pendingEmptyMachine()
+	inLookup := map[*ssa.Function]bool{}
+	work := []*ssa.Function{m.lookup}
+	for len(work) > 0 {
+		g := work[len(work)-1]
+		work = work[:len(work)-1]
+		if inLookup[g] {
+			continue
+		}
+		inLookup[g] = true
+		allInstrs(g, false, func(_ *ssa.Function, in ssa.Instruction) {
+			if ci, ok := in.(ssa.CallInstruction); ok {
+				if h := m.body(ci.Common()); h != nil {
+					work = append(work, h)
+				}
+			}
+		})
+	}
+	ns := 0
+	for _, f := range m.funcs {
+		if !inLookup[f] {
+			continue
+		}
+		for _, cs := range callsIn(f, false, func(fn *types.Func) bool { return c45SlicesFn(fn, "BinarySearchFunc", "BinarySearch") }) {
+			if len(cs.Args()) == 0 || !c45Is(cs.Args()[0], m.entries) {
+				continue
+			}
+			ns++
+			bad := pm.requireBefore(cs.Instr, func(s int) bool { return s == 1 })
+			c.Check(bad == "", "C45.sweep/"+fnName(f)+"/before-search", p.Pos(cs.Instr.Pos()),
+				"the owner search runs only after the pending removals were swept ("+m.deleted.Name()+" cleared or tested empty)",
+				"the binary search that picks the owner can run while "+m.deleted.Name()+" is non-empty ("+bad+"): the virtual nodes of removed members are still in "+m.entries.Name()+" and the keys still in "+m.members.Name()+", so Lookup can return a member that was removed (a freshly built ring never would)")
+		}
+	}
+	if ns == 0 {
+		c.Lost("no binary search of Ring.%s in the closure of Lookup", m.entries.Name())
+	}
+}
+
+// pendingEmptyMachine: state 1 = the pending-delete set is known empty
+// (cleared, or its length was compared with 0 on this edge), 0 = unknown.
+func (m *c45Model) pendingEmptyMachine() *c45Machine {
+	isLenPending := func(v ssa.Value) bool {
+		call, ok := v.(*ssa.Call)
+		if !ok {
+			return false
+		}
+		b, ok := call.Call.Value.(*ssa.Builtin)
+		return ok && b.Name() == "len" && len(call.Call.Args) == 1 && c45Is(call.Call.Args[0], m.deleted)
+	}
+	isConst := func(v ssa.Value, want string) bool {
+		cv, ok := constOf(v)
+		return ok && cv.ExactString() == want
+	}
+	return &c45Machine{
+		n: 2, init: 0,
+		body: m.body, funcs: m.funcs, isRoot: m.isRoot,
+		label: func(s int) string {
+			if s == 1 {
+				return m.deleted.Name() + " known empty"
+			}
+			return m.deleted.Name() + " possibly non-empty"
+		},
+		step: func(in ssa.Instruction, s int) (c45Set, bool) {
+			if cc, ok := isBuiltinCall(in, "clear"); ok && c45Is(cc.Args[0], m.deleted) {
+				return 1 << 1, true
+			}
+			if mu, ok := in.(*ssa.MapUpdate); ok && c45Is(mu.Map, m.deleted) {
+				return 1 << 0, true
+			}
+			return 0, false
+		},
+		edge: func(cond ssa.Value, pol bool, s int) (c45Set, bool) {
+			bo, ok := cond.(*ssa.BinOp)
+			if !ok {
+				return 0, false
+			}
+			// normalise to  len(pending) OP const
+			x, y, op := bo.X, bo.Y, bo.Op
+			if isLenPending(y) {
+				x, y = y, x
+				switch op {
+				case token.LSS:
+					op = token.GTR
+				case token.GTR:
+					op = token.LSS
+				case token.LEQ:
+					op = token.GEQ
+				case token.GEQ:
+					op = token.LEQ
+				}
+			}
+			if !isLenPending(x) {
+				return 0, false
+			}
+			emptyWhen := map[bool]bool{} // truth value of cond → pending is empty
+			switch {
+			case op == token.EQL && isConst(y, "0"), op == token.LEQ && isConst(y, "0"), op == token.LSS && isConst(y, "1"):
+				emptyWhen[true] = true
+			case op == token.NEQ && isConst(y, "0"), op == token.GTR && isConst(y, "0"), op == token.GEQ && isConst(y, "1"):
+				emptyWhen[false] = true
+			default:
+				return 0, false
+			}
+			if emptyWhen[pol] {
+				return 1 << 1, true
+			}
+			return 0, false
+		},
+	}
+}
+
+// c45KeyIs: every origin of v is the parameter prm.
+func c45KeyIs(v ssa.Value, prm *ssa.Parameter) bool {
+	os := origins(v, nil)
+	if len(os) == 0 || prm == nil {
+		return false
+	}
+	for _, o := range os {
+		if o.V != ssa.Value(prm) {
+			return false
+		}
+	}
+	return true
+}
+
+// notInGuard: target is reachable only when the key held in parameter prm of
+// target's function is known absent from the map field.  The fact comes from
+//   - the not-found edge of `_, ok := field[key]`,
+//   - the edge on which an in-package helper called with the key returned a
+//     value it returns only when the key is absent (computed from the helper's
+//     returns, recursively), or
+//   - every in-package call site of target's function being so guarded for the
+//     argument bound to prm (the appending code was extracted into a helper).
+func (m *c45Model) notInGuard(target ssa.Instruction, prm *ssa.Parameter, field *types.Var, depth int) bool {
+	f := target.Parent()
+	pred := func(cond ssa.Value, pol bool) bool {
+		if ex, ok := cond.(*ssa.Extract); ok && ex.Index == 1 && !pol {
+			if lk, ok := ex.Tuple.(*ssa.Lookup); ok && lk.CommaOk && c45Is(lk.X, field) && c45KeyIs(lk.Index, prm) {
+				return true
+			}
+		}
+		call, ok := cond.(*ssa.Call)
+		if !ok || depth >= 3 {
+			return false
+		}
+		g := m.body(call.Common())
+		if g == nil || g.Signature.Results().Len() != 1 {
+			return false
+		}
+		for i, a := range call.Call.Args {
+			if i >= len(g.Params) || !c45KeyIs(a, prm) {
+				continue
+			}
+			n, all := 0, true
+			for _, r := range returnsOf(g) {
+				if cv, ok := constOf(r.Results[0]); ok && (cv.ExactString() == "true") != pol {
+					continue // this return yields the other value
+				}
+				n++
+				if !m.notInGuard(r, g.Params[i], field, depth+1) {
+					all = false
+				}
+			}
+			if n > 0 && all {
+				return true
+			}
+		}
+		return false
+	}
+	if guardedCut(target, pred) {
+		return true
+	}
+	if depth >= 3 || m.isRoot(f) {
+		return false
+	}
+	idx := -1
+	for i, q := range f.Params {
+		if q == prm {
+			idx = i
+		}
+	}
+	sites := m.sm.callSites(f)
+	if idx < 0 || len(sites) == 0 {
+		return false
+	}
+	for _, cs := range sites {
+		args := cs.Common().Args
+		if idx >= len(args) {
+			return false
+		}
+		var q *ssa.Parameter
+		for _, o := range origins(args[idx], nil) {
+			if pp, ok := o.V.(*ssa.Parameter); ok && pp.Parent() == cs.Parent() && c45KeyIs(args[idx], pp) {
+				q = pp
+			}
+		}
+		if q == nil || !m.notInGuard(cs, q, field, depth+1) {
+			return false
+		}
+	}
+	return true
 }
 
 func c45Insert(m *c45Model) {
@@ -444,27 +837,8 @@ func c45Insert(m *c45Model) {
 				c.Undecided("C45.insert/"+fnName(f)+"/guard", site, "appending function has no string key parameter")
 				continue
 			}
-			isKey := func(v ssa.Value) bool {
-				for _, o := range origins(v, nil) {
-					if o.V != ssa.Value(keyParam) {
-						return false
-					}
-				}
-				return true
-			}
-			notIn := func(field *types.Var) bool {
-				return guardedCut(st, func(cond ssa.Value, pol bool) bool {
-					if pol {
-						return false
-					}
-					ex, ok := cond.(*ssa.Extract)
-					if !ok || ex.Index != 1 {
-						return false
-					}
-					lk, ok := ex.Tuple.(*ssa.Lookup)
-					return ok && lk.CommaOk && c45Is(lk.X, field) && isKey(lk.Index)
-				})
-			}
+			isKey := func(v ssa.Value) bool { return c45KeyIs(v, keyParam) }
+			notIn := func(field *types.Var) bool { return m.notInGuard(st, keyParam, field, 0) }
 			g1, g2 := notIn(m.members), notIn(m.deleted)
 			c.Check(g1 && g2, "C45.insert/"+fnName(f)+"/guard", site,
 				"virtual nodes appended only when the key is neither in "+m.members.Name()+" nor in "+m.deleted.Name(),
@@ -562,10 +936,24 @@ func c45Manager(m *c45Model) {
 		if f.Object() == nil || !f.Object().Exported() {
 			continue
 		}
-		for _, g := range withClosures([]*ssa.Function{f}) {
+		// … directly or in a helper of the ring's package it calls
+		seen := map[*ssa.Function]bool{}
+		work := withClosures([]*ssa.Function{f})
+		for len(work) > 0 {
+			g := work[len(work)-1]
+			work = work[:len(work)-1]
+			if seen[g] {
+				continue
+			}
+			seen[g] = true
 			allInstrs(g, false, func(_ *ssa.Function, in ssa.Instruction) {
 				if mu, ok := in.(*ssa.MapUpdate); ok && (c45Is(mu.Map, m.members) || c45Is(mu.Map, m.deleted)) {
 					mut[f.Name()] = true
+				}
+				if ci, ok := in.(ssa.CallInstruction); ok {
+					if h := m.body(ci.Common()); h != nil {
+						work = append(work, withClosures([]*ssa.Function{h})...)
+					}
 				}
 			})
 		}
